@@ -135,7 +135,13 @@ class HashTable:
         return f"{self.__class__.__name__}({self._keys.ravel().tolist()}, {v})"
 
     def _get_mod(self, keys):
-        return self.dtype(2 * keys.size - 1)  # TODO: make prime
+        return self.dtype(self._fit_mod(2 * keys.size - 1))  # TODO: make prime
+
+    def _fit_mod(self, mod):
+        # the modulus is kept in the key dtype: 2n-1 does not fit a narrow one (65 int8 keys); any modulus >= 1 is a valid one
+        if np.issubdtype(self.dtype, np.integer):
+            return min(mod, int(np.iinfo(self.dtype).max))
+        return mod
 
     def _get_hash(self, keys):
         return keys % self._mod
